@@ -106,6 +106,7 @@ func utilsRoot(content []byte, chunkSize int64) ([]byte, error) {
 }
 
 type storWorld struct {
+	batched   bool  // proofs travel in a transaction together with a proof for a file that is gone
 	proofType int64 // the proof_type field of the files posted in this world (a free, informative field of MsgPostFile)
 	c         *chain.Chain
 	f         *chain.Fork
@@ -165,7 +166,16 @@ func (w *storWorld) postFile(owner chain.Account, content []byte, maxProofs, exp
 // postProofRaw sends a MsgPostProof and decodes its Success flag.
 func (w *storWorld) postProofRaw(prover chain.Account, merkle []byte, owner string, start int64, item, hashlist []byte, toProve int64) (bool, string, chain.Result) {
 	msg := &storagetypes.MsgPostProof{Creator: prover.Bech, Item: item, HashList: hashlist, Merkle: merkle, Owner: owner, Start: start, ToProve: toProve}
-	res := w.f.Exec(msg)
+	var res chain.Result
+	if w.batched {
+		// providers answer the challenges of a window in one transaction, one message per file; among them there may be a
+		// proof for a file that has vanished meanwhile (the provider cannot know) - it is answered, not accepted, and the
+		// transaction with the other proofs stands
+		gone := &storagetypes.MsgPostProof{Creator: prover.Bech, Item: item, HashList: hashlist, Merkle: append([]byte{0xde, 0xad}, merkle...), Owner: owner, Start: start, ToProve: toProve}
+		res = w.f.ExecAtomic(gone, msg)
+	} else {
+		res = w.f.Exec(msg)
+	}
 	if !res.OK() {
 		return false, res.String(), res
 	}
